@@ -42,6 +42,7 @@ def run(ck, fb):
     r02i(ck, fb)
     r02m(ck, fb)
     r02n(ck, fb)
+    r02o(ck, fb)
     ck.borrow('rules.c03', {'R03b': 'R02j', 'R03g': 'R02k', 'R03i': 'R02l'}, 'a truncation that leaves wrong cursors / keeps the suffix breaks the reopened log')
 
 
@@ -393,3 +394,57 @@ def r02n(ck, fb, R='R02n'):
         ck.require(ok, R, 'init:last-term-from-last-record', s0.where(),
                    'the record whose term becomes last_term is read up to %s, which is not the exclusive end index: the second-to-last record is read' %
                    (cfg.fmt_desc(cfg.describe_operand(b, up))[:60] if up is not None else '?'))
+
+
+def r02o(ck, fb, R='R02o'):
+    ck.rule(R, 'a batch that was written completely is acknowledged as written, also when its last record fills the log file: in the WriteBatch arm '
+               'of LogInnerManager::handle_request the running index counts the records written so far (it is advanced after each successful write), '
+               'so "all written" is running index == list.len(); in the SuccessToEnd arm nothing may be computed from running index + 1 (the '
+               'resume index of FailureBatch would be len + 1, the manager resends list[len+1..] to the next file and the log actor panics)')
+    b = ck.main(LIM + 'handle_request', R)
+    if not b:
+        return
+    from rn.facts import op_place, pl_local, pl_proj
+
+    def root(op, depth=0):
+        pl = op_place(op)
+        if pl is None or pl_proj(pl):
+            return None
+        l = pl_local(pl)
+        ds = b.defs.get(l, [])
+        if depth < 6 and len(ds) == 1 and ds[0][0] == 'stmt' and ds[0][3]['rv']['k'] == 'use':
+            r = root(ds[0][3]['rv']['op'], depth + 1)
+            return r if r is not None else l
+        return l
+    # running indexes: locals with a definition `l = (l + 1).0` inside a loop
+    plus1 = []     # (block, stmt, base local)
+    for (i, j, st) in b.stmts():
+        rv = st.get('rv')
+        if rv and rv['k'] == 'bin' and rv['op'] in ('Add', 'AddWithOverflow') and 'c' in rv['b'] and str(rv['b']['c'].get('v')) == '1' and rv['b']['c'].get('ty') == 'usize':
+            r = root(rv['a'])
+            if r is not None:
+                plus1.append((i, st, r))
+    counters = set()
+    for (i, st, r) in plus1:
+        # the sum flows back into r in a loop
+        tgt = st.get('d')
+        for kind, bb, jj, node in b.defs.get(r, []):
+            if kind == 'stmt' and node['rv']['k'] == 'use':
+                src = op_place(node['rv']['op'])
+                if src is not None and pl_local(src) == tgt and i in cfg.reach_from(b, [bb]) and bb in cfg.reach_from(b, [i]):
+                    counters.add(r)
+    if not ck.require(len(counters) >= 1, R, 'WriteBatch:running-index', b.where(), 'the running index of the batch loop was not found'):
+        return
+    n = 0
+    bad = []
+    for (i, st, r) in plus1:
+        if r not in counters:
+            continue
+        atoms = cfg.guard_atoms(b, i)
+        if any(a[0] in ('variant',) and a[2] == 'SuccessToEnd' for a in atoms):
+            n += 1
+            bad.append(b.where(i))
+    ck.require(not bad, R, 'WriteBatch:SuccessToEnd-uses-written-count', bad[0] if bad else b.where(),
+               'in the SuccessToEnd arm the running index + 1 is compared with list.len() / used as resume index: the batch whose last record fills '
+               'the file (173056 records of 130 bytes, then a one-record batch) is answered FailureBatch with resume index 2 of 1')
+    ck.ok(R, 'WriteBatch:counters', b.where(), '%d running index(es)' % len(counters))
